@@ -11,7 +11,7 @@ ALL_KINDS = ["buffer", "delay", "rate_limit", "timed_window", "timed_window_uniq
              "map_async", "latest", "plain"]
 KINDS = {
     "C02": ["buffer", "delay", "rate_limit", "timed_window", "timed_window_unique", "partition", "zip", "map_async", "plain"],
-    "C03": ["buffer", "zip", "zip3", "map_async", "plain", "partition", "rate_limit", "timed_window", "delay"],
+    "C03": ["buffer", "zip", "zip3", "map_async", "plain", "partition", "rate_limit", "timed_window", "delay", "flatten", "zip_latest"],
     "C04": ALL_KINDS,
     "C05A": ALL_KINDS,
     "C10A": ["buffer", "delay", "rate_limit", "timed_window", "timed_window_unique", "partition", "zip", "map_async", "latest", "plain"],
@@ -73,7 +73,8 @@ def shrink(case, still):
 
 def single_node_part(prop, oprop, tier, rng, out, known, cov):
     n_per_kind = {"quick": 120, "thorough": 1500}[tier]
-    g = asyncrun.AGen(rng, max_actions=16 if tier == "quick" else 40, mix=True, block=oprop in ("C13", "C02"))
+    g = asyncrun.AGen(rng, max_actions=16 if tier == "quick" else 40, mix=True, block=oprop in ("C13", "C02"),
+                      detach=oprop in ("C02", "C03", "C08", "C14"))
     co = []
     kinds_hist = {}
     nontriv = set()
@@ -81,7 +82,7 @@ def single_node_part(prop, oprop, tier, rng, out, known, cov):
     for kind in KINDS[oprop]:
         for _ in range(n_per_kind):
             c = g.case(kind)
-            if oprop == "C14" and rng.random() < 0.5:
+            if oprop == "C14" and rng.random() < 0.5 and not any(a[0] == "detach" for a in c["actions"]):
                 # several arrivals inside one loop iteration / in consecutive loop callbacks
                 for _rep in range(rng.choice([1, 1, 2])):
                     pos = rng.randrange(len(c["actions"]) + 1)
@@ -146,6 +147,7 @@ def single_node_part(prop, oprop, tier, rng, out, known, cov):
                                   ("failing_consumer", any(a[0] == "ackfail" for a in c["actions"])),
                                   ("failing_user_function", bool(c["node"].get("userfail"))),
                                   ("burst_seq_chain", any(a[0] in ("burst", "seq", "chain") for a in c["actions"])),
+                                  ("feed_detached_and_reattached", any(a[0] == "detach" for a in c["actions"])),
                                   ("sink_" + str(c.get("sink")), True)):
                 if present:
                     feat[name] = feat.get(name, 0) + 1
@@ -164,7 +166,7 @@ def single_node_part(prop, oprop, tier, rng, out, known, cov):
                 nfind += 1
                 break
     # correspondence (cases with a burst / mix have no model action: oracle only)
-    modelled = [(c, o) for (c, o) in co if c["node"]["k"] in asyncrun.MODELS and not any(a[0] in ("burst", "seq", "chain", "mix", "ackfail") for a in c["actions"]) and not c.get("react") and not c["node"].get("userfail")]
+    modelled = [(c, o) for (c, o) in co if c["node"]["k"] in asyncrun.MODELS and not any(a[0] in ("burst", "seq", "chain", "mix", "ackfail", "detach", "attach") for a in c["actions"]) and not c.get("react") and not c["node"].get("userfail")]
     mism, errors = asyncrun.correspondence(prop, modelled)
     for p_, o_ in errors:
         out.violation("%s/correspondence-error" % prop, "coqc failed on generated cases: %s" % o_[-400:], {"file": p_}, no_input=True)
